@@ -14,7 +14,8 @@ arithmetic, exceptions included (the driver runs them at `Float`).
 
 Continued in `Props/C01World.lean` (the same API on a heap of `Obs` objects: tracks that share or copy their
 observations — `extract`, slices, `+`, `copy`, `extractSpanTime`, `loop(add=True)`, `addObs(o.copy())`) and in
-`Props/C01Call.lean` (the list forms of `Track.operate`). -/
+`Props/C01Call.lean` (the list forms of `Track.operate`; `call_keeps_listed`: a call that is not a deleting call unlists
+nothing, returning or raising). -/
 set_option linter.unusedSectionVars false
 namespace TV.C01
 open TV.Features
